@@ -8,6 +8,7 @@ import time
 
 import z3
 
+from vlib import stateguard
 from vlib.pybmc import Interp, Interner, GuardedLog, Unsupported, Alt, Sym, zand, znot, zor, T, F, _UNBOUND
 
 
@@ -40,6 +41,7 @@ def run(make, body, allow_pathwise=True, max_paths=6000, budget_s=600):
     if not force:
         it = make()
         try:
+            stateguard.restore()
             out = body(it) or {}
             v = View()
             v.normal = it.g
@@ -80,6 +82,7 @@ def _pathwise(make, body, reason, max_paths, budget_s):
                               % (len(pcs), time.time() - t0, reason))
         prefix = work.pop()
         it = make(forking=True, prefix=prefix, interner=interner)
+        stateguard.restore()
         out = body(it) or {}
         if first is None:
             first = out
